@@ -87,15 +87,25 @@ def run(ck):
     ok = any(isinstance(n, ast.For) and "defuse.reachable_parents(" in norm(n.iter) and any(isinstance(y, ast.Yield) for y in walk_local(n)) for n in walk_body(fn))
     ck.ob("R1", "get_useful_assignments:closure", ok, m.where(fn), "the useful set is not closed under def-use dependencies")
     fn = m.func("DeadRemoval.do_dead_removal")
-    dels = [n for n in walk_body(fn) if isinstance(n, ast.Delete)]
-    ok = bool(dels)
-    for d in dels:
-        p = getattr(d, "_parent", None)
-        good = False
-        while p is not None and p is not fn:
-            if isinstance(p, ast.If) and norm(p.test).startswith("AssignblkNode(block.loc_key, ") and norm(p.test).endswith("not in useful"):
-                good = True
-            p = getattr(p, "_parent", None)
+    # an assignment disappears only if its (block, index, destination) node is known not to be useful: either an explicit deletion under
+    # the must-fact `AssignblkNode(...) not in useful`, or a rebuilt dictionary whose only filter is `AssignblkNode(...) in useful`
+    from sa.facts import guard_facts as _gf
+    dcfg = CFG(fn)
+    dfacts = _gf(dcfg)
+    dels = [nd for nd in dcfg.nodes if nd.kind == "stmt" and isinstance(nd.ast, ast.Delete)]
+    comps = [n for n in walk_body(fn) if isinstance(n, ast.DictComp) and len(n.generators) == 1 and "assignblk" in norm(n.generators[0].iter)]
+    ok = bool(dels) or bool(comps)
+    for nd in dels:
+        f = dfacts.get(nd.id, frozenset())
+        ok = ok and any(x[0] == "cmp" and x[2] == "notin" and x[3] == "useful" and x[1].startswith("AssignblkNode(block.loc_key, ") for x in f)
+    for c in comps:
+        ifs = c.generators[0].ifs
+        good = len(ifs) == 1 and isinstance(ifs[0], ast.Compare) and len(ifs[0].ops) == 1 and isinstance(ifs[0].ops[0], ast.In) and \
+            norm(ifs[0].comparators[0]) == "useful" and norm(ifs[0].left).startswith("AssignblkNode(block.loc_key, ")
+        # the node must be built from the very destination the comprehension keeps
+        tgt = c.generators[0].target
+        kname = norm(tgt.elts[0]) if isinstance(tgt, ast.Tuple) else norm(tgt)
+        good = good and norm(c.key) == kname and norm(ifs[0].left).endswith(", %s)" % kname)
         ok = ok and good
     ck.ob("R1", "do_dead_removal:delete-only-useless", ok, m.where(fn), "an assignment can be deleted without being tested against the useful set")
     ok = any(isinstance(n, ast.Assign) and norm(n.targets[0]) == "useful" and "self.get_useful_assignments(" in norm(n.value) for n in walk_body(fn))
@@ -191,7 +201,8 @@ def _merge_rules(ck):
     from sa.facts import guard_facts
     ck.rule("R5", "block merging drops nothing of the parent block but its IRDst assignment", floor=5)
     m = ck.repo.mod(DF)
-    fn = m.func("_do_merge_blocks")
+    from sa.prenorm import normalise_function
+    fn = normalise_function(m.func("_do_merge_blocks"))
     par = fn.args.args[1].arg
     cfg = CFG(fn)
     loops = [nd for nd in cfg.nodes if nd.kind == "for" and norm(nd.ast.iter) in ("ircfg.blocks[%s]" % par, "ircfg.blocks[%s].assignblks" % par)]
